@@ -567,6 +567,38 @@ type cgenType struct {
 	RestOfInput bool
 	Fuzz        bool // fuzz-protocol message type
 	Ctx         cgenCtx
+	// Variant: "" for the plain table entry; otherwise the decoder-side context this entry runs with
+	// (a HashSegmentMap); variant entries are in cgenByName and cgenVariants, not in cgenAll.
+	Variant string
+}
+
+// cgenHSMRoots contains the tree roots the generated ImportSpecs use (zero and the pattern hash);
+// cgenHSMOther contains an unrelated root only.
+var cgenHSMRoots = func() types.HashSegmentMap {
+	var z, h, v types.OpaqueHash
+	copy(h[:], cgenPattern(32, 17))
+	copy(v[:], cgenPattern(32, 99))
+	return types.HashSegmentMap{z: v, h: v}
+}()
+var cgenHSMOther = func() types.HashSegmentMap {
+	var o types.OpaqueHash
+	copy(o[:], cgenPattern(32, 201))
+	return types.HashSegmentMap{o: o}
+}()
+
+// cgenVariants[variant][T]: the entry of T under that decoder-side context.
+var cgenVariants = map[string]map[reflect.Type]*cgenType{}
+
+// cgenLocVariant: the variant of the seed being localised (child decoders run in the same context).
+var cgenLocVariant string
+
+func cgenInVariant(ct *cgenType) *cgenType {
+	if cgenLocVariant != "" {
+		if v := cgenVariants[cgenLocVariant][ct.T]; v != nil {
+			return v
+		}
+	}
+	return ct
 }
 
 // cgenHSM is installed on every encoder/decoder: ImportSpec refuses to work with
@@ -722,6 +754,17 @@ func cgenInit() error {
 	for _, ct := range cgenAll {
 		cgenByT[ct.T] = ct
 		cgenByName[ct.Name] = ct
+	}
+	// the ImportSpec family decodes differently depending on the decoder's HashSegmentMap
+	for variant, hsm := range map[string]types.HashSegmentMap{"hsm=roots": cgenHSMRoots, "hsm=other": cgenHSMOther} {
+		cgenVariants[variant] = map[reflect.Type]*cgenType{}
+		for _, n := range []string{"ImportSpec", "WorkItem", "WorkPackage", "WorkPackageBundle"} {
+			base := cgenByName["types."+n]
+			vt := cgenCodecTypeHSM("types."+n+"["+variant+"]", base.T, hsm)
+			vt.Variant = variant
+			cgenVariants[variant][base.T] = vt
+			cgenByName[vt.Name] = vt
+		}
 	}
 	// cross-check with the sources (cwd of the test is the package directory)
 	for _, dir := range []string{"../types", "."} {
@@ -1154,6 +1197,9 @@ type cgenSpan struct {
 func cgenChildSpans(ptr reflect.Value, s []byte, a, b int) []cgenSpan {
 	var subs []cgenSubVal
 	cgenSubs(ptr.Elem(), "", true, &subs)
+	for i := range subs {
+		subs[i].ct = cgenInVariant(subs[i].ct)
+	}
 	var out []cgenSpan
 	cursor := a
 	for _, sv := range subs {
@@ -1229,6 +1275,8 @@ func cgenLocalise(seed cgenSeed, m cgenMut, pred func(ct *cgenType, input []byte
 // observed at that level; the facet of the innermost reproducing level wins.
 func cgenLocaliseKey(seed cgenSeed, m cgenMut, topKey string, pred func(ct *cgenType, input []byte, seedPart []byte) (bool, string)) (string, string) {
 	key := topKey
+	cgenLocVariant = seed.ct.Variant
+	defer func() { cgenLocVariant = "" }()
 	w := cgenApply(seed.enc, m)
 	cur, a, b := seed.ct, 0, len(seed.enc)
 	ptr := seed.Val()
